@@ -14,7 +14,8 @@ from vfy.lemmas.common import S, cp_ok, cp_md, cp_in, all_ok, all_in, ALPH14, by
 from vfy.plug.stubs import install_quote
 
 ASSUMPTIONS = ["Pygments' highlight/get_lexer_by_name/guess_lexer are third-party and replaced by nondeterministic stubs (return a string / raise ClassNotFound on a symbolic boolean)",
-               'urllib.parse.quote -> contract stub; Σ excludes lone surrogates']
+               'urllib.parse.quote -> contract stub; Σ excludes lone surrogates',
+               'T4 (and C08-H4, C17-L4, C18-X4): the skeleton is parsed natively; the symbolic attribute value ranges over what T4_HOLES declares the parser can deliver for that attribute']
 OUTSIDE = ['documents longer than the bounds except through T2 (induction on lines) and T3 (one-character neighbourhoods of each construct)',
            'nesting deeper than the skeletons; recursion-limit behaviour; wall-clock on large inputs']
 
